@@ -1343,11 +1343,95 @@ def fold_pure_helpers(tree: ast.Module) -> bool:
     return changed
 
 
+def inline_nested_predicates(tree: ast.Module) -> bool:
+    """N15: a nested single-expression function (`def g(x): return e` or `g = lambda x: e`) that is only ever called by name
+    inside its enclosing function is replaced at its call sites by e[x := arg].  Sound when every captured name is bound at
+    most once in the enclosing function (so the value seen at the call equals the value at the definition's use) and every
+    argument is either an atom or its parameter is used at most once."""
+    changed = False
+    for f in [n for n in ast.walk(tree) if isinstance(n, (ast.FunctionDef, ast.AsyncFunctionDef))]:
+        for st in list(f.body):
+            g_name = params = expr = None
+            if isinstance(st, ast.FunctionDef) and not st.decorator_list:
+                body = [b for b in st.body if not (isinstance(b, ast.Expr) and isinstance(b.value, ast.Constant))]
+                if len(body) == 1 and isinstance(body[0], ast.Return) and body[0].value is not None:
+                    g_name, a, expr = st.name, st.args, body[0].value
+            elif isinstance(st, ast.Assign) and len(st.targets) == 1 and isinstance(st.targets[0], ast.Name) and isinstance(st.value, ast.Lambda):
+                g_name, a, expr = st.targets[0].id, st.value.args, st.value.body
+            if g_name is None or a.vararg or a.kwarg or a.kwonlyargs or a.defaults or a.posonlyargs:
+                continue
+            params = [x.arg for x in a.args]
+            if any(isinstance(x, (ast.Lambda, ast.Yield, ast.YieldFrom, ast.Await, ast.NamedExpr)) for x in ast.walk(expr)):
+                continue
+            if g_name in _names_loaded(expr):
+                continue
+            # every other occurrence of g_name in f must be the callee of a plain positional call
+            calls, other = [], 0
+            callee_ids = set()
+            for n in ast.walk(f):
+                if n is st:
+                    continue
+                if isinstance(n, ast.Call) and isinstance(n.func, ast.Name) and n.func.id == g_name and not n.keywords and len(n.args) == len(params) and not any(isinstance(x, ast.Starred) for x in n.args):
+                    calls.append(n)
+                    callee_ids.add(id(n.func))
+            for n in ast.walk(f):
+                if isinstance(n, ast.Name) and n.id == g_name and id(n) not in callee_ids and not (n is getattr(st, "targets", [None])[0]):
+                    other += 1
+                if isinstance(n, (ast.FunctionDef, ast.AsyncFunctionDef)) and n is not st and n is not f and n.name == g_name:
+                    other += 1
+            if other or not calls:
+                continue
+            inner_bound = {x.id for x in ast.walk(expr) if isinstance(x, ast.Name) and isinstance(x.ctx, ast.Store)}
+            free = _names_loaded(expr) - set(params) - inner_bound
+            stores = {}
+            for n in ast.walk(f):
+                if isinstance(n, ast.Name) and isinstance(n.ctx, (ast.Store, ast.Del)):
+                    stores[n.id] = stores.get(n.id, 0) + 1
+                elif isinstance(n, ast.arg) and n is not None:
+                    pass
+            in_loop = set()
+            for n in ast.walk(f):
+                if isinstance(n, (ast.For, ast.While, ast.AsyncFor)):
+                    in_loop |= _names_stored(n)
+            if any(stores.get(v, 0) > 1 or v in in_loop for v in free):
+                continue
+            uses = {p_: sum(1 for x in ast.walk(expr) if isinstance(x, ast.Name) and x.id == p_) for p_ in params}
+            ok = True
+            for c in calls:
+                for p_, arg in zip(params, c.args):
+                    if not (_immutable_atom(arg) or isinstance(arg, ast.Name) or uses[p_] <= 1):
+                        ok = False
+                # arguments must not collide with names bound inside the expression (comprehension targets)
+                if any(_names_loaded(arg) & inner_bound for arg in c.args):
+                    ok = False
+            if not ok:
+                continue
+            repl = {id(c): c for c in calls}
+
+            class _R(ast.NodeTransformer):
+                def visit_Call(self, node):
+                    self.generic_visit(node)
+                    if id(node) in repl:
+                        new = _subst(copy.deepcopy(expr), dict(zip(params, node.args)))
+                        return ast.copy_location(new, node)
+                    return node
+            for i, b in enumerate(f.body):
+                if b is st:
+                    continue
+                f.body[i] = _R().visit(b)
+            f.body = [b for b in f.body if b is not st] or [ast.Pass()]
+            ast.fix_missing_locations(f)
+            changed = True
+    return changed
+
+
 def normalize_module(tree: ast.Module, max_rounds: int = 6) -> ast.Module:
     for _ in range(max_rounds):
         bn = BlockNormalizer()
         bn.run(tree)
         if fold_pure_helpers(tree):
+            bn.changed = True
+        if inline_nested_predicates(tree):
             bn.changed = True
         inl = Inliner(tree)
         inl.run()
